@@ -216,6 +216,17 @@ func (g *vGateWorld) probe(c map[string]interface{}, idx int) map[string]interfa
 		}
 	case "showtoken":
 		q.Path = "/showAuthToken"
+	case "clisend":
+		// the actor's CLI identity token, obtained earlier with a full-strength session (tokens live up to a year)
+		tok := "no.such.token"
+		sr := w.Do(vReq{Method: "GET", Path: "/showAuthToken", Headers: map[string]string{"Accept": "text/html"},
+			Cookies: map[string]string{authCookieName: w.mintCookie(actor, AuthTypePassword|AuthTypeU2F, 0)}})
+		if m := vTokenRe.FindSubmatch(sr.Body); m != nil {
+			tok = string(m[1])
+		}
+		q.Path = "/sendAuthDocument"
+		form.Set("token", tok)
+		form.Set("port", "12345")
 	case "u2fsignreq":
 		q.Path = u2fSignRequestPath
 	case "webauthnbegin":
